@@ -27,8 +27,8 @@ KEY_DESIGNATION = re.compile(r'^\*(?:[A-Ga-g][#-]?|\?)X?(?::(?:dor|phr|lyd|mix|a
 STRUCT_CATS = {'EMPTY', 'BARLINES', 'CLEF', 'KEY_SIGNATURE', 'TIME_SIGNATURE', 'METER_SYMBOL', 'STRUCTURAL', 'BOUNDING_BOXES', 'KEY_TOKEN', 'SIGNATURES',
                'HEADER', 'SPINE_OPERATION', 'IMAGE_ANNOTATIONS', 'LINE_BREAK', 'COMMENTS', 'FIELD_COMMENTS', 'LINE_COMMENTS'}
 OWN = dict(A.OWN_CAT)
-OWN.update({'**zzz': 'OTHER', '**e': 'OTHER', '**silbe': 'OTHER'})
-HEADERS = ['**text', '**dynam', '**dyn', '**harm', '**mxhm', '**fing', '**zzz', '**e', '**silbe']
+OWN.update({'**zzz': 'OTHER', '**e': 'OTHER', '**silbe': 'OTHER', '**dynamics': 'OTHER', '**textual': 'OTHER', '**kernel': 'OTHER', '**harmony': 'OTHER'})
+HEADERS = ['**text', '**dynam', '**dyn', '**harm', '**mxhm', '**fing', '**zzz', '**e', '**silbe', '**dynamics', '**textual', '**kernel', '**harmony']
 ALPHA = list("abcdefgrABCXyqLJ0123489*=.!-#:|;^v[]() k\"ñMj?/+%,")
 SUB = list("acrCX049*=.!-#:|;[]() kñM")
 
@@ -56,7 +56,7 @@ def corpus(tier):
           '*M3+2/8', '*M2/4+3/8', '*M2/4%2', '*M2/4;3:3/4', '*M2/4|3/4', '*M4', '*M4/', '*M/4', '*met(c)', '*met(c|)', '*met(O.)', '*M(C|3/2)', '*met()', '*met(x)',
           '*staff1', '*staff+1', '*staff1/2', '*staff', '*staffx', '*xywh-1:1,2,3,4', '*xywh-p 1:10,20,30,40', '*xywh-1:1,2,3', '*xywh1:1,2,3,4', '=1', '=1-||',
           '=1||;', '=:|!|:', '=:||:', '=:!!:', '==:|!', '=|!:', '=|!', '===', '====', '=1=', '=1:|!', '=!|', '=!', '=|', '=:', '=1x', '=a1', '*^', '*v', '*-', '*+', '*x',
-          '**kern', '!!comment', '!', '!x']
+          '**kern', '!!comment', '!', '!x', '*xywh-img:1', '*xywh-01:10,20,30', 'rit.', '.', 'rit', '=2', 'ri-', '*', 'rM', '*clefG2', 'cresc.', '=', 'dim.', '*xywh-01', '4c']
     c += [''.join(p) for n in (1, 2) for p in itertools.product(ALPHA, repeat=n)]
     if tier != 'quick':
         c += [''.join(p) for p in itertools.product(SUB, repeat=3)]
